@@ -296,9 +296,6 @@
             new_iter.will_return_none() == wn0,
         invariant
             Asn::obeys_cmp_spec(),
-            // (device, see FnW: lets the solver resolve the Map adapters' iterator specs inside the loop)
-            FnW::<(&'a Aspa, &'a PayloadInfo), &'a Aspa>::w(&vstd::std_specs::iter::map_fun(old_iter)),
-            FnW::<(&'a Aspa, &'a PayloadInfo), &'a Aspa>::w(&vstd::std_specs::iter::map_fun(new_iter)),
             old_iter.obeys_prophetic_iter_laws(), old_iter.decrease() is Some,
             new_iter.obeys_prophetic_iter_laws(), new_iter.decrease() is Some,
             opt_old is None ==> old_iter.remaining().len() == 0 && old_iter.will_return_none(),
@@ -311,10 +308,18 @@
             (if opt_old is Some { 1 + old_iter.decrease()->Some_0 } else { 0 })
             + (if opt_new is Some { 1 + new_iter.decrease()->Some_0 } else { 0 }),
 //@ loopentry 1
+            proof {
+                // (device, see FnW: lets the solver resolve the Map adapters' iterator specs inside the loop)
+                assert(FnW::<(&'a Aspa, &'a PayloadInfo), &'a Aspa>::w(&vstd::std_specs::iter::map_fun(old_iter)));
+                assert(FnW::<(&'a Aspa, &'a PayloadInfo), &'a Aspa>::w(&vstd::std_specs::iter::map_fun(new_iter)));
+            }
             let ghost items0 = items.items@;
             let ghost ro0 = rest(opt_old, old_iter.remaining());
             let ghost rn0 = rest(opt_new, new_iter.remaining());
             proof {
+                // (device, see FnW: lets the solver resolve the Map adapters' iterator specs inside the loop)
+                assert(FnW::<(&'a Aspa, &'a PayloadInfo), &'a Aspa>::w(&vstd::std_specs::iter::map_fun(old_iter)));
+                assert(FnW::<(&'a Aspa, &'a PayloadInfo), &'a Aspa>::w(&vstd::std_specs::iter::map_fun(new_iter)));
                 lemma_adiff_unfold(ro0, rn0);
                 lemma_rest(opt_old, old_iter.remaining());
                 lemma_rest(opt_new, new_iter.remaining());
